@@ -945,4 +945,37 @@ Proof.
     apply (block_candidate member bloom_sound n (nthN (n - lenN (chain s)) pre []) _ flt); auto.
 Qed.
 
+(* at full strength: [guarded] holds for every history (the snapshot is consumed by the initialisation that
+   reads it, Proofs_main.guarded_always) *)
+Lemma paging_concat_preconfirmed_all ops :
+  let s := ensure W (run W member init_state ops) in
+  chain s <> [] ->
+  forall pre flt from to chunk limit fuel, 0 < chunk ->
+  lenN (chain s) + lenN pre <= sentinel + 1 ->
+  (N.to_nat (page_bound (range_blocks (chain s) pre from to)
+                        (lenN (filter_spec_pre (chain s) flt from to pre))) <= fuel)%nat ->
+  pages_pre W member fuel s flt from to chunk limit pre = Some (filter_spec_pre (chain s) flt from to pre).
+Proof. apply paging_concat_preconfirmed_lemma. apply guarded_always; auto. Qed.
+
+Lemma paging_progress_all ops :
+  let s := ensure W (run W member init_state ops) in
+  chain s <> [] ->
+  forall pre flt from to chunk limit fuel, 0 < chunk ->
+  lenN (chain s) + lenN pre <= sentinel + 1 ->
+  let bound := page_bound (range_blocks (chain s) pre from to)
+                          (lenN (filter_spec_pre (chain s) flt from to pre)) in
+  (N.to_nat bound <= fuel)%nat ->
+  exists ps, page_seq W member fuel s flt from to chunk limit (0, 0) pre = Some ps /\
+    page_count_ok (range_blocks (chain s) pre from to)
+                  (lenN (filter_spec_pre (chain s) flt from to pre)) (lenN ps) = true /\
+    pages_ok chunk limit (pre_start (chain s) pre from, 0) (page_sizes ps) = true.
+Proof. apply paging_progress_lemma. apply guarded_always; auto. Qed.
+
+Lemma no_false_negative_pre_all ops :
+  let s := ensure W (run W member init_state ops) in
+  forall pre flt n, n < lenN (chain s) + lenN pre ->
+    block_matches (chain s ++ pre) flt n <> [] ->
+    cand_ext W member s flt pre n = Some true.
+Proof. apply no_false_negative_pre_lemma. apply guarded_always; auto. Qed.
+
 End Assembly.
